@@ -154,7 +154,7 @@ func NewSrvWork(x *Ctx, flushop bool) *SrvWork {
 			q.Fid = uint32(100 + i)
 			q.Newfid = uint32(5000 + i)
 		}
-		q.Tag = uint16(q.Slot)
+		q.Tag = uint16(q.Slot) ^ uint16(c.cfg("tagxor")) // any 16-bit value is a tag
 		q.prev = lastOnSlot[[2]int{q.Conn, q.Slot}]
 		lastOnSlot[[2]int{q.Conn, q.Slot}] = q
 		if q.IsFlush && q.Target != nil {
@@ -212,7 +212,7 @@ func (w *SrvWork) build(q *wReq) *Msg {
 		if q.Target != nil {
 			m.Oldtag = q.Target.Tag
 		} else {
-			m.Oldtag = uint16(q.TargetSlot)
+			m.Oldtag = uint16(q.TargetSlot) ^ uint16(w.x.C.cfg("tagxor"))
 		}
 	case Tread:
 		m.Offset = w.nonce(q)
